@@ -421,59 +421,65 @@ def main():
             all_tool.append({"kind": "timeout", "message": "verus timed out on %s" % unit})
             continue
         fails, tools = triage(unit, gen, vr, ucfg)
-        # R20: an unknown helper method that is a pure single-expression `fn name(&self)` in one of the unit's source files
-        # (typically introduced by a refactoring) is inlined at its call sites and the unit is rebuilt
-        unknown = set()
-        for x in tools:
-            for mm in re.finditer(r"no method named `(\w+)` found", x.get("message", "") + x.get("rendered", "")):
-                unknown.add(mm.group(1))
-        inline_map = {}
-        for nm in sorted(unknown):
-            # the helper is identified by its name only, so it must be the ONLY function of that name in the unit's source
-            # files (otherwise a helper of another type could be inlined): ambiguous -> no inlining, the error stands
-            ndefs = 0
-            for fpath in sorted(set(f["file"] for f in gen.functions)):
+        # R20: unknown simple helpers / consts (typically introduced by a refactoring) are resolved from the unit's source files and
+        # the unit is rebuilt; repeated (at most 4 rounds) because resolving one name can expose the next (a helper using a const)
+        auto_variant = {"inline": {}, "const_subst": {}, "inline_fns": {}}
+        src_files = sorted(set(f["file"] for f in gen.functions))
+
+        def _ndefs(nm):
+            n_ = 0
+            for fp_ in src_files:
                 try:
-                    ndefs += len(re.findall(r"\bfn\s+%s\s*[<(]" % re.escape(nm), open(os.path.join(args.repo, fpath)).read()))
+                    n_ += len(re.findall(r"\bfn\s+%s\s*[<(]" % re.escape(nm), open(os.path.join(args.repo, fp_)).read()))
                 except OSError:
                     pass
-            if ndefs != 1:
-                continue
-            for fpath in sorted(set(f["file"] for f in gen.functions)):
-                try:
-                    e = find_simple_method(open(os.path.join(args.repo, fpath)).read(), nm)
-                except Exception:  # noqa: BLE001
-                    e = None
-                if e:
-                    inline_map[nm] = e
-                    break
-        extra_consts = []
-        for x in tools:
-            for mm in re.finditer(r"cannot find value `([A-Z][A-Z0-9_]*)` in this scope", x.get("message", "") + x.get("rendered", "")):
-                for fpath in sorted(set(f["file"] for f in gen.functions)):
-                    try:
-                        cc = find_simple_const(open(os.path.join(args.repo, fpath)).read(), mm.group(1))
-                    except Exception:  # noqa: BLE001
-                        cc = None
-                    if cc and not any(e[2] == cc[1] for e in extra_consts):
-                        extra_consts.append((fpath, cc[0], cc[1]))
-                        break
-        inline_fns = {}
-        for x in tools:
-            msgtxt = x.get("message", "") + x.get("rendered", "")
-            cands = [(mm.group(1), False) for mm in re.finditer(r"cannot find function `(\w+)` in this scope", msgtxt)]
-            cands += [(mm.group(1), True) for mm in re.finditer(r"no (?:variant, associated function, or constant|function or associated item|variant or associated item|associated item) named `([a-z_]\w*)` found", msgtxt)]
-            for nm_, assoc_ in cands:
-                for fpath in sorted(set(f["file"] for f in gen.functions)):
-                    try:
-                        ff = find_simple_fn(open(os.path.join(args.repo, fpath)).read(), nm_)
-                    except Exception:  # noqa: BLE001
-                        ff = None
-                    if ff:
-                        inline_fns[nm_] = (ff[0], ff[1], assoc_)
-                        break
-        auto_variant = {"inline": inline_map, "extra_consts": extra_consts, "inline_fns": inline_fns}
-        if inline_map or extra_consts or inline_fns:
+            return n_
+        for _round in range(4):
+            grew = False
+            for x in tools:
+                msgtxt = x.get("message", "") + x.get("rendered", "")
+                # helper methods `x.name()`: identified by name only, so the name must be defined exactly once in the unit's files
+                for mm in re.finditer(r"no method named `(\w+)` found", msgtxt):
+                    nm = mm.group(1)
+                    if nm in auto_variant["inline"] or _ndefs(nm) != 1:
+                        continue
+                    for fp_ in src_files:
+                        try:
+                            e = find_simple_method(open(os.path.join(args.repo, fp_)).read(), nm)
+                        except Exception:  # noqa: BLE001
+                            e = None
+                        if e:
+                            auto_variant["inline"][nm] = e; grew = True
+                            break
+                # module-level consts: every use is replaced by the initializer expression (what the compiler does with a const)
+                for mm in re.finditer(r"cannot find value `([A-Z][A-Z0-9_]*)` in this scope", msgtxt):
+                    nm = mm.group(1)
+                    if nm in auto_variant["const_subst"]:
+                        continue
+                    for fp_ in src_files:
+                        try:
+                            cc = find_simple_const(open(os.path.join(args.repo, fp_)).read(), nm)
+                        except Exception:  # noqa: BLE001
+                            cc = None
+                        if cc:
+                            auto_variant["const_subst"][nm] = cc[1]; grew = True
+                            break
+                # free / associated helper functions
+                cands = [(mm.group(1), False) for mm in re.finditer(r"cannot find function `(\w+)` in this scope", msgtxt)]
+                cands += [(mm.group(1), True) for mm in re.finditer(r"no (?:variant, associated function, or constant|function or associated item|variant or associated item|associated item) named `([a-z_]\w*)` found", msgtxt)]
+                for nm_, assoc_ in cands:
+                    if nm_ in auto_variant["inline_fns"] or _ndefs(nm_) != 1:
+                        continue
+                    for fp_ in src_files:
+                        try:
+                            ff = find_simple_fn(open(os.path.join(args.repo, fp_)).read(), nm_)
+                        except Exception:  # noqa: BLE001
+                            ff = None
+                        if ff:
+                            auto_variant["inline_fns"][nm_] = (ff[0], ff[1], assoc_); grew = True
+                            break
+            if not grew:
+                break
             try:
                 gen, path = build_unit(unit, cfg, args.repo, outdir, auto_variant)
                 text = gen.text()
@@ -481,7 +487,8 @@ def main():
                 cmds.append(" ".join(vr["cmd"]))
                 fails, tools = triage(unit, gen, vr, ucfg)
             except (ExtractError, LexError) as e:
-                tools.append({"kind": "extract", "message": "R20 inline of %s: %s" % (sorted(inline_map), e)})
+                tools.append({"kind": "extract", "message": "R20 auto-resolution of %s: %s" % (sorted(auto_variant["inline"]) + sorted(auto_variant["const_subst"]) + sorted(auto_variant["inline_fns"]), e)})
+                break
         if any(x["kind"] == "rlimit" for x in tools):
             # a resource limit hides whether an obligation fails: retry once with a large limit for a definite answer
             vr2 = run_verus(path, None, extra + ["--rlimit", "300"], timeout=1500)
